@@ -111,6 +111,8 @@ func TestC10Disk(t *testing.T) {
 
 type c09Trace struct {
 	Blocks []c09Block `json:"blocks"`
+	// Genesis holds the generated custom-module sections both processes start from.
+	Genesis map[string]json.RawMessage `json:"genesis,omitempty"`
 }
 type c09Block struct {
 	DT  int64    `json:"dt"`
@@ -122,7 +124,15 @@ type c09Digest struct {
 }
 
 func digestRun(tr *c09Trace) (*c09Digest, error) {
-	c, err := simnet.NewChain(dbm.NewMemDB(), "", simnet.GenesisOptions{Accounts: simnet.DefaultAccounts(world.NumAccounts)})
+	gopts := simnet.GenesisOptions{Accounts: simnet.DefaultAccounts(world.NumAccounts)}
+	if len(tr.Genesis) > 0 {
+		gopts.Mutate = func(_ func(interface{}) []byte, gs map[string]json.RawMessage) {
+			for k, v := range tr.Genesis {
+				gs[k] = v
+			}
+		}
+	}
+	c, err := simnet.NewChain(dbm.NewMemDB(), "", gopts)
 	if err != nil {
 		return nil, err
 	}
@@ -188,7 +198,12 @@ func TestC09Process(t *testing.T) {
 	n := 0
 	cfg.Final = func(w *world.World) error {
 		n++
-		tr := &c09Trace{}
+		tr := &c09Trace{Genesis: map[string]json.RawMessage{}}
+		for k, v := range map[string]json.RawMessage{"aol": w.Opt.AolGenesis, "did": w.Opt.DidGenesis, "pnft": w.Opt.PnftGenesis} {
+			if v != nil {
+				tr.Genesis[k] = v
+			}
+		}
 		var want c09Digest
 		for _, b := range w.Blocks {
 			cb := c09Block{DT: b.DT}
